@@ -151,6 +151,13 @@ func (x *Exec) lockModel(fr *Frame, st *State, pc *preparedCall, name string, k 
 		}
 		st.held = append(st.held, heldLock{ID: id, Level: level, Write: op == "lock", Desc: desc})
 		x.havocVolatile(st, desc)
+		// waiting for a lock takes time: "locknow" is the (unknown, not earlier) moment it was got
+		ln := Var(x.fresh("locknow"), SInt)
+		st.assumeRaw(Ge(ln, st.now))
+		if old, ok := st.ghost["locknow"].(IntV); ok {
+			st.assumeRaw(Ge(ln, old.T))
+		}
+		st.ghost["locknow"] = IntV{ln}
 		k(st, nil)
 	case "trylock", "tryrlock":
 		b := Var(x.fresh("trylock"), SBool)
